@@ -100,6 +100,9 @@ extern "C" void h_r_block(void) {
     std::vector<BlockParameters>* pv = new std::vector<BlockParameters>(); std::vector<BlockParameters>& params = *pv;
     params.push_back(BlockParameters()); params.push_back(BlockParameters());
     params.m_data[0].storage_parameters.ticks_per_second = nondet_u64(); params.m_data[1].storage_parameters.ticks_per_second = nondet_u64();
+    // the parameter sets carry arbitrary hint masks: what a block holds is decided by the file, not by the hints of its parameter set
+    for (unsigned k = 0; k < 2; k++) { StorageHints& h = params.m_data[k].storage_parameters.storage_hints;
+        h.query_response_hints = nondet_u32(); h.query_response_signature_hints = nondet_u32(); h.rr_hints = nondet_u8(); h.other_data_hints = nondet_u8(); }
     unsigned nq = 0, nm = 0, na = 0; bool with_stats = false, with_tables = false, with_unknown = false; int idx = -1;
 #if BLKR_SHAPE == 0
     nq = 2; nm = 1; na = 1; with_stats = true; with_tables = true; with_unknown = true; idx = 1;
@@ -180,6 +183,8 @@ extern "C" void h_reader_block(void) {
     Box<CdnsReader>* rb = new Box<CdnsReader>(); CdnsReader& rd = rb->v;
     new (&rd.m_file_preamble) FilePreamble();
     rd.m_file_preamble.m_block_parameters.m_data[0].storage_parameters.ticks_per_second = nondet_u64();
+    { StorageHints& h = rd.m_file_preamble.m_block_parameters.m_data[0].storage_parameters.storage_hints;
+      h.query_response_hints = nondet_u32(); h.query_response_signature_hints = nondet_u32(); h.rr_hints = nondet_u8(); h.other_data_hints = nondet_u8(); }
     rd.m_blocks_count = nondet_u64(); rd.m_blocks_read = nondet_u64(); rd.m_indef_blocks = nondet_bool();
     __verif_assume(rd.m_blocks_read <= rd.m_blocks_count || rd.m_indef_blocks);
     __verif_assume(rd.m_blocks_read < ~0ULL);
